@@ -75,6 +75,17 @@ Theorem C13_new_scanner_any_start : forall d c t h now,
   snd (run1 pollst out2 poll_f1v poll_p1 poll_reset1 (None, None) c now (pollst_new t) h).
 Proof. exact new_scanner_any_start. Qed.
 
+(** the same for the 16-channel scanner of the model, [poll_run] -- the function the
+    correspondence check evaluates against the implementation driven by the mock clock *)
+Theorem C13_clock_origin_irrelevant_scanner : forall d h now s,
+  poll_run (now + d) (shift_all d s) h =
+  omap (fun r => let '(now', s', outs) := r in (now' + d, shift_all d s', outs)) (poll_run now s h).
+Proof. exact clock_origin_irrelevant_16. Qed.
+
+Theorem C13_new_scanner_any_start_scanner : forall d t h now,
+  omap snd (poll_run (now + d) (poll_new_scanner t) h) = omap snd (poll_run now (poll_new_scanner t) h).
+Proof. exact new_scanner_any_start_16. Qed.
+
 (** the deadline is a threshold in time: a poll that acts at some instant (reports the pending
     MSB or drops the unpaired LSB) acts in exactly the same way at any later instant instead, and
     a poll that is too early at some instant is too early at every earlier one *)
@@ -106,4 +117,6 @@ Print Assumptions C13_clock_origin_irrelevant.
 Print Assumptions C13_new_scanner_any_start.
 Print Assumptions C13_once_due_always_due.
 Print Assumptions C13_early_before_is_early.
+Print Assumptions C13_clock_origin_irrelevant_scanner.
+Print Assumptions C13_new_scanner_any_start_scanner.
 Print Assumptions C13_example.
